@@ -151,7 +151,8 @@ func c19Run(r *Run, reg string, depth, shard, shards int) {
 	}
 
 	bfs := &BFS{
-		Scn: scn, MaxDepth: depth, ValidatePaths: shard == 0, RootShard: shard, RootShards: shards,
+		SeqDepth: map[bool]int{true: 2, false: 1}[reg != "pairs" || r.Tier == "thorough"],
+		Scn:      scn, MaxDepth: depth, ValidatePaths: shard == 0, RootShard: shard, RootShards: shards,
 		Init: func(r *Run, w *World, root *Node) {
 			v := ViewOf(w)
 			root.Model, root.MKey = v, ""
